@@ -11,7 +11,8 @@ import LitexModel.Bits
             then for each master i: ack err dat_r                                (3 numbers)
             then `error` (Timeout.error; 0 when there is no Timeout)
 
-  open shared <n> <m> <reg 0|1> <timeout none|t> <dw> <addrWidth> <dec_0> … <dec_{m-1}>
+  open shared <n> <m> <reg 0|1> <timeout none|t> <dw> <addrWidth> <dec_0> … <dec_{m-1}> [aws:<w_0>,…,<w_{n-1}>]
+       (aws = per-master adr_width; the shared bus carries max of them; omitted = unbounded)
   open xbar   <n> <m> <reg 0|1> <dw> <addrWidth> <dec_0> … <dec_{m-1}>
   open p2p
   open socbus <n> <kind shared|crossbar> <reg 0|1> <timeout none|t> <dw> <addrWidth> <origin:size> …
@@ -74,8 +75,14 @@ def parseShared (args : List String) : Option (ShCfg) :=
   | n :: m :: reg :: t :: dw :: aw :: decs => do
     let n ← n.toNat?; let m ← m.toNat?; let reg ← parseBool reg; let t ← parseTimeout t
     let dw ← dw.toNat?; let aw ← aw.toNat?
-    let ds ← decs.mapM parseDec
-    if ds.length = m then some { n, m, dec := decOfSpecs dw aw ds, reg, timeout := t, dw } else none
+    let awTok := decs.filter (·.startsWith "aws:")
+    let aws ← (match awTok with
+      | [] => some []
+      | w :: _ => (match w.splitOn ":" with
+        | [_, l] => ((l.splitOn ",").filter (· ≠ "")).mapM (·.toNat?)
+        | _ => none))
+    let ds ← (decs.filter (fun w => !w.startsWith "aws:")).mapM parseDec
+    if ds.length = m then some { n, m, dec := decOfSpecs dw aw ds, reg, timeout := t, dw, aws } else none
   | _ => none
 
 def parseXbar (args : List String) : Option (XbCfg) :=
